@@ -26,7 +26,7 @@ N_QUICK, K_QUICK = 6, 2
 N_THOROUGH, K_THOROUGH = 320, 15
 BOUND = (
     "Sampled, not exhaustive. Case i = gen_case(seed, i) from random.Random('c18:<seed>:<i>'): 3-6 assets, synthetic "
-    "random-walk market, 4-9 week range; configuration cycling with i mod 4 through (0) dynamic universe in which two "
+    "random-walk market, 4-9 week range; configuration cycling with i mod 4 through (0) dynamic universe in which three "
     "assets enter at the same instant + top-N momentum, (1) SMA crossover, (2) inverse volatility on a dynamic "
     "universe, (3) fixed weights; weekly (any weekday) / daily / end_of_month schedules, long-only or long/short, "
     "zero or percentage fees, burn-in on 1 case in 3. Per case: the same configuration on a different market (same "
